@@ -396,6 +396,18 @@ func apiCorpus() []run.Case {
 			{M: "listCollections", DB: "d1", Q: d("idIndex.v", int32(2))},
 			{M: "insertOne", DB: "a.b", Coll: "c", Doc: d("_id", one)},
 		},
+		{ // Collection("").Drop() is rejected before the transaction begins; it must not drop the database
+			ins(d("_id", one)),
+			{M: "insertOne", DB: "d1", Coll: "e", Doc: d("_id", one)},
+			{M: "dropCollection", DB: "d1", Coll: ""},
+			{M: "listCollections", DB: "d1", Q: d()},
+			{M: "estCount", DB: "d1", Coll: "c"},
+			{M: "dropCollection", DB: "", Coll: "c"},
+			{M: "dropCollection", DB: "d1", Coll: "c"},
+			{M: "listCollections", DB: "d1", Q: d()},
+			{M: "dropDatabase", DB: "d1"},
+			{M: "listCollections", DB: "d1", Q: d()},
+		},
 		{ // TTL: 0 seconds is 1 ns; numbers and strings never expire; arrays expire through any element
 			idx(d("t", one), func(c *apiCall) { c.HasTTL, c.TTL = true, 0 }),
 			idx(d("u", one), nil),
